@@ -10,6 +10,9 @@ What is a theorem here and what is not (see DESIGN.md §7 C08):
   index, slice bound, shift count or allocation size ever depends on a symbolic value — for all secret values at once,
   per public shape.  The outcome table is regenerated on every run (`Voi.Gen.CT.results`) and checked here by the kernel:
   every constant-time entry point translated, and every negative control (a *Vartime routine fed a secret) was rejected.
+  The default amd64 build (tags `amd64asm` in the table) is covered too: its Go glue (vector point arithmetic, table
+  construction, dispatch on the CPU feature flag) is executed symbolically, the assembly routines it calls are summarised
+  as primitives that make everything they can write secret; their own control flow/addressing is pinned by the skeleton.
   The symbolic executor itself is trusted (it is cross-validated by stream T0, which runs the programs it emits against the
   real functions); assembly files are outside its reach and are covered by a committed control-flow/addressing skeleton.
 -/
@@ -31,12 +34,16 @@ theorem run_steps_const (P : List Op) (e₁ e₂ : Env) :
 
 /-- every entry of the regenerated table has the expected outcome: constant-time entry points translate with all
 secrets symbolic; variable-time negative controls are rejected -/
-theorem ct_table_ok : (Voi.Gen.CT.results.all fun r => r.2.1 == r.2.2.1) = true := by decide
+theorem ct_table_ok : (Voi.Gen.CT.results.all fun r => r.2.1 == r.2.2.1) = true := by decide +kernel
 
 /-- the table is not vacuous: it covers at least 100 (entry point × backend) pairs, at least 3 of them negative controls -/
-theorem ct_table_size : 100 ≤ Voi.Gen.CT.results.length ∧ 3 ≤ (Voi.Gen.CT.results.filter fun r => !r.2.2.1).length := by decide
+theorem ct_table_size : 100 ≤ Voi.Gen.CT.results.length ∧ 3 ≤ (Voi.Gen.CT.results.filter fun r => !r.2.2.1).length := by decide +kernel
 
 /-- a non-trivial instance: the whole variable-base scalar multiplication is among the translated entry points -/
-example : (Voi.Gen.CT.results.any fun r => r.1 == "Edwards_Mul@purego" && r.2.1 && decide (100000 < r.2.2.2)) = true := by decide
+example : (Voi.Gen.CT.results.any fun r => r.1 == "Edwards_Mul@purego" && r.2.1 && decide (100000 < r.2.2.2)) = true := by decide +kernel
+
+/-- … and so is the same operation as the default amd64 build executes it (AVX2 vector backend: Go glue executed
+symbolically, assembly routines summarised as constant-time primitives, see `go2ir.asmSummary`) -/
+example : (Voi.Gen.CT.results.any fun r => r.1 == "EdwardsPoint_Mul@amd64asm" && r.2.1 && decide (100000 < r.2.2.2)) = true := by decide +kernel
 
 end Voi.Props.C08
